@@ -368,6 +368,7 @@ type ngSessionResult struct {
 	State   []string
 	Shape   []string // C15:shape failures
 	Allocs  []string // C15:alloc failures
+	Later   []string // C14:later-read-alters-earlier failures
 	Reader  *pcapgo.NgReader
 }
 
@@ -457,8 +458,23 @@ func ngSession(rd io.Reader, ro ngReadOpts, allocBound int64) (res *ngSessionRes
 		if len(data) != ci.CaptureLength || ci.CaptureLength > ci.Length {
 			res.Shape = append(res.Shape, fmt.Sprintf("read#%d len(data)=%d caplen=%d len=%d", i, len(data), ci.CaptureLength, ci.Length))
 		}
-		ci.AncillaryData = append([]interface{}(nil), ci.AncillaryData...) // the zero-copy call reuses the slice
-		res.Pkts = append(res.Pkts, ngPacket{append([]byte(nil), data...), ci, o, ngPktLine(data, ci, o)})
+		line := ngPktLine(data, ci, o)
+		if ro.ZeroCopy {
+			// the zero-copy call reuses its buffers: what it returned is only valid until the next call
+			ci.AncillaryData = append([]interface{}(nil), ci.AncillaryData...)
+			data = append([]byte(nil), data...)
+		}
+		// a copying call hands out values: they are KEPT as returned (no deep copy) and looked at
+		// again after the last read
+		res.Pkts = append(res.Pkts, ngPacket{data, ci, o, line})
+	}
+	if !ro.ZeroCopy {
+		for i := range res.Pkts {
+			p := &res.Pkts[i]
+			if now := ngPktLine(p.Data, p.CI, p.Opts); now != p.Line {
+				res.Later = append(res.Later, fmt.Sprintf("packet %d kept from its copying read changed after later reads: was %.120s now %.120s", i, p.Line, now))
+			}
+		}
 	}
 	func() {
 		defer func() {
